@@ -621,7 +621,9 @@ class PersistenceImager(TransformerMixin):
 
         # loop over diagrams to determine the maximum extent of the pairs contained in the birth-persistence plane
         for pers_dgm in pers_dgms:
-            pers_dgm = np.copy(pers_dgm)
+            # double precision copy: ranges learned in single precision would not
+            # be whole multiples of the pixel size (nor contain the fitted pairs)
+            pers_dgm = np.array(pers_dgm, dtype=np.float64)
             if skew:
                 pers_dgm[:, 1] = pers_dgm[:, 1] - pers_dgm[:, 0]
 
